@@ -95,6 +95,23 @@ contract(f"{TT}::TokenTree.gather_token", "gather_token.insertion-guard(E)", var
          covers=["result is not None", "result is None"], bounded=BOUND,
          note="only tokens signed by the tree's key whose parent is genesis or an element are ever inserted")
 
+# the waiting area evicts ONLY on overflow: offering an orphan that is already waiting (a duplicate delivery) while the area is exactly
+# full changes nothing - otherwise the final tree would depend on duplicates and on arrival order
+TREE_FULL = OBJ(f"{TT}::TokenTree", public_key=PK, private_key=EXPR("None"), genesis_hash=BYTES_N(32), _logger=LOGGER(),
+                elements=DICTOBJ(BYTES, TOKEN(), where="v._hash == k and signed_by(v, PKB) and (v.previous_token_hash == GEN or True)"),
+                unchained=EXPR("mk_unchained([u1, u2])"), unchained_max_size=EXPR("2"))
+contract(f"{TT}::TokenTree.gather_token", "gather_token.duplicate-orphan-evicts-nothing",
+         vars={**VARS, "tree": TREE_FULL, "dup": EXPR("[u1, u2][which]")}, instances=[{"n_wait": 2, "which": 0}, {"n_wait": 2, "which": 1}],
+         requires=["tree.public_key.ec.bin == PKB", "tree.genesis_hash == GEN", "uf_bool('valid_public_key', PKB)",
+                   "all(signed_by(w, PKB) for w in tree.unchained)", "U(tree)", "u1._hash != u2._hash",
+                   "dup.previous_token_hash != GEN",         # really an orphan: its parent is neither genesis nor (U) an element
+                   "u1.previous_token_hash + u1.content_hash + u1.signature != u2.previous_token_hash + u2.content_hash + u2.signature"],
+         call="tree.gather_token(dup)", raises=[],
+         ensures=["result is None", "len(tree.unchained) == 2",
+                  "any(w is u1 for w in tree.unchained) and any(w is u2 for w in tree.unchained)"],
+         bounded="waiting area of size 2, full",
+         note="a token already in the (full) waiting area is offered again: nobody is evicted")
+
 contract(f"{TT}::TokenTree.gather_token", "gather_token.preserves-U(order-independence)", vars=VARS,
          instances=[{"n_wait": n} for n in range(3)], requires=PRE, call="tree.gather_token(t)", raises=[],
          ensures=["U(tree)"], bounded=BOUND,
